@@ -694,8 +694,11 @@ def contract_case(arg):
     want = data if name != "aes" else data + bytes((-len(data)) % 16)
     rs = rng.choice([1, 7, 16, 17, 100, 4096, 1 << 20]) if name != "aes" else rng.choice([16, 17, 100, 4096, 1 << 20])
     out, pos, stalled, over = bytearray(), 0, 0, False
+    first = True
     while len(out) < len(want) and stalled < 3:
-        ch = blob[pos:pos + rs]
+        # _read_data hands out min(block size, rest) bytes: never fewer than 16 at the start of a stream
+        ch = blob[pos:pos + (max(rs, 16) if first else rs)]
+        first = False
         pos += len(ch)
         ml = rng.choice([-1, len(want) - len(out), max(1, (len(want) - len(out)) // 3), 1])
         got = dec.decompress(ch, ml)
